@@ -147,6 +147,15 @@ def _symbolize(S, module, prefix):
 def _outputs(S, kind, model, lik, x, xs, y):
     """prior, posterior / predictive and training objective of a model, as Sym arrays"""
     out = {}
+    if kind in ("exact", "sgpr") and not model.training:
+        # a model that is already in evaluation mode is first used AS IS (no train()/eval() call that could clear caches)
+        po = lik(model(xs))
+        out["posterior.mean (as restored, no mode switch)"] = as_sym_arr(SH.get(po.mean)).copy()
+        out["posterior.cov (as restored, no mode switch)"] = as_sym_arr(SH.get(po.covariance_matrix)).copy()
+    if kind == "var" and not model.training:
+        qf = model(xs)
+        out["q(f).mean (as restored, no mode switch)"] = as_sym_arr(SH.get(qf.mean)).copy()
+        out["q(f).cov (as restored, no mode switch)"] = as_sym_arr(SH.get(qf.covariance_matrix)).copy()
     if kind in ("exact", "sgpr"):
         model.train(); lik.train()
         mll = gpytorch.mlls.ExactMarginalLogLikelihood(lik, model)
@@ -186,6 +195,7 @@ def _build(S, kind, variant, x, y, Z):
 
 
 def roundtrip(S, kind, mechanism, savepoint):
+    CTX.sweep_timeout = 400  # original and restored model run the same code: merges are syntactic or cheap; keep misses cheap too
     n, m_, d = 2, 1, 1
     x = S.randn(n, d, scale=0.8); S.sym_tensor(x, "x")
     xs = S.randn(m_, d, scale=0.8); S.sym_tensor(xs, "z")
@@ -235,9 +245,14 @@ def roundtrip(S, kind, mechanism, savepoint):
         if kind in ("exact", "sgpr"):
             rlik = rest.likelihood
             lik = orig.likelihood
+        if mechanism.startswith("state_dict") and not orig.training:
+            rest.eval(); rlik.eval()  # same mode as the saved model; for the used receiver this is a no-op (already eval)
         want = _outputs(S, kind, orig, lik, x, xs, y)
         got = _outputs(S, kind, rest, rlik, x, xs, y)
     for k in want:
+        if k not in got:
+            S.check_concrete(False, "restored model is not in the saved model's mode (%s missing)" % k)
+            continue
         S.check_concrete(got[k].shape == want[k].shape, "%s shape" % k)
         S.prove_eq(got[k], want[k], "%s via %s at save point '%s': %s identical to the original's" % (kind, mechanism, savepoint, k))
     # state coverage seen concretely: restored state_dict equals the original's
